@@ -60,7 +60,10 @@ impl Check for DefCheck {
 		let len = match self.id {
 			// reversal detectors and position counters: beyond 4 * PeriodType::MAX
 			"C14" if name.contains("Reversal") => {
-				if rc.chance(0.5) {
+				if sut::PMAX > 255 && sut::PMAX <= 65_535 && k % 16 == 5 {
+					// beyond the capacity of a 16-bit position counter
+					sut::PMAX as usize + 500 + rc.usize_below(1000)
+				} else if rc.chance(0.5) {
 					(4 * 256 + rc.usize_below(600)).min(if tier == Tier::Quick { 1500 } else { 6000 })
 				} else {
 					50 + rc.usize_below(400)
